@@ -93,6 +93,10 @@ def excluded(src, tree):
             return "assigns to str/int/float (documented as not reassignable)"
         if isinstance(n, ast.Expr) and isinstance(n.value, ast.Name) and n.value.id in soft:
             return "a bare soft keyword as a whole statement (documented context-dependent meaning)"
+        if isinstance(n, ast.Expr) and isinstance(n.value, ast.Call) and isinstance(n.value.func, ast.Name) and n.value.func.id in soft:
+            return "a statement starting with a soft keyword (read as the Scenic statement of that name)"
+        if isinstance(n, ast.BinOp) and isinstance(n.op, ast.MatMult):
+            return "binary @ (documented Scenic vector operator)"
         if isinstance(n, ast.ClassDef):
             for st in n.body:
                 if isinstance(st, ast.AnnAssign) or (isinstance(st, ast.Expr) and False):
